@@ -6,11 +6,20 @@ acc() { # id property scopes kinds what
   local id=$1 prop=$2 scopes=$3 kinds=$4 what=$5
   local files=$(ls $D/$prop.q $D/$prop.t 2>/dev/null)
   [ -z "$files" ] && return
-  python3 mc/findings.py accept --id "$id" --property $prop --scope "$scopes" --kind "$kinds" --what "$what" $files
+  if [ -n "${ONLY:-}" ]; then case " $ONLY " in *" $prop "*) ;; *) return;; esac; fi
+  python3 mc/findings.py accept $MERGE --id "$id" --property $prop --scope "$scopes" --kind "$kinds" --what "$what" $files
 }
-# rebuild from scratch: keep the fixed: records, drop every open finding and witness list
-grep '^fixed:' known_findings.jsonl > known_findings.jsonl.new; mv known_findings.jsonl.new known_findings.jsonl; rm -f known_witnesses/*.jsonl
-./accept_C02.sh $(ls $D/C02.q $D/C02.t 2>/dev/null) >/dev/null
+# ONLY="C09 C11" ./accept_all.sh <dir>: incremental mode - the listed properties' findings get the keys of the dumps MERGED into
+# their existing witness lists (used after a check's alphabet / depth / key format was extended; every new cluster is
+# reviewed against the code first); without ONLY everything is rebuilt from scratch from complete quick + thorough dumps.
+if [ -n "${ONLY:-}" ]; then
+  MERGE=--merge
+else
+  MERGE=
+  # rebuild from scratch: keep the fixed: records, drop every open finding and witness list
+  grep '^fixed:' known_findings.jsonl > known_findings.jsonl.new; mv known_findings.jsonl.new known_findings.jsonl; rm -f known_witnesses/*.jsonl
+  ./accept_C02.sh $(ls $D/C02.q $D/C02.t 2>/dev/null) >/dev/null
+fi
 acc C01-listen-emptied-intelligent-choice C01 listen '*' "listen: after all children were removed, to_string(intelligent_choice=True) returns an empty <listen/> (schema requires one child)"
 acc C01-ornaments-orphan-accidental-mark C01 ornaments '*' "ornaments: after removals / replacements in a repeated (ornament, accidental-mark*) group an accidental-mark without its ornament is serialised (thorough tier)"
 acc C03-xml-namespace-attributes-renamed C03 accidental-text,directive,formatted-text,formatted-text-id,lyric-language,text-element-data,text-formatting '*' "attribute tables: xml:lang / xml:space are declared as 'lang' / 'space' (lyric-language loses use=required)"
@@ -31,6 +40,7 @@ acc C14-forward-placement-lost C14 '*' '*' "deepcopy re-adds the children withou
 acc C15-name-attribute-shadowed C15 bookmark,lyric,lyric-font,lyric-language,miscellaneous-field '*' "the 'name' attribute cannot be read or set by dot syntax: e.name is the element name property"
 acc C15-xlink-elements C15 link,part-link,opus '*' "link / part-link / opus: any attribute read or xml_* read-back raises AttributeError from the undeclared xlink attribute objects"
 acc C16-lyric-intelligent-choice-side-effect C16 lyric '*' "lyric: a successful to_string(intelligent_choice=True) re-attaches children and changes later results"
+acc C16-serialise-then-remove-in-repeated-choice C16 articulations,dynamics,encoding,listen,ornaments,technical 'serialisation-side-effect' "types whose content is one unbounded choice: add x, add x, remove the first; a to_string() at this point changes what the removal of the remaining child leaves behind (without it the emptied element serialises, with it children are reported as required) - the matcher flags that remove() does not reset are set by the final check (seen through the removal probes of the fingerprint)"
 acc C19-xlink-attribute-objects C19 part-link,link,opus '*' "part-link (link, opus): to_string / attribute checks raise AttributeError about None from xlink attribute objects"
 
 acc C08-name-attribute-unparseable C08 '*' '*' "own output with a 'name' attribute (bookmark, lyric-font, lyric-language, miscellaneous-field, ...) cannot be parsed back: the parser's setattr hits the read-only element-name property"
